@@ -18,6 +18,7 @@ From VL Require Model.Hybrids Proofs.Hybrids_proofs.
 From VL Require Import Proofs.RaisesBallot_proofs Proofs.Scorers_proofs.
 From VL Require Import Proofs.HouseTie_proofs Proofs.VotesFull_proofs.
 From VL Require Model.Quota Model.QuotaDistributor.
+From VL Require Proofs.PositionalShared_proofs Proofs.RaisesAdded_proofs.
 Import ListNotations.
 Open Scope Z_scope.
 
@@ -742,6 +743,218 @@ Proof.
   - vm_compute. repeat split; reflexivity.
 Qed.
 
+
+(* ==== positional rules, the changed ballot WITH shared ranks (Proofs/PositionalShared_proofs.v).  In the model of
+   RankedToPositionalVotes.convert ([img_positional], as in the code) every member of a shared rank gets the score of the rank's index.
+   General additive form first: the sole winner stays when everybody else gains at most what the winner gains (C17_additive is the case
+   "winner gains >= 0 >= the others' gain") - needed because under modified Borda a ballot that gets one rank longer lifts every score by one. *)
+Theorem C17_additive_diff : forall (B : Type) (image : B -> list (sx * Q)) pre post (b b' : B) (w : Q) (kw : sx),
+  (0 <= w)%Q ->
+  (forall k, In k (map fst (image b')) -> k = kw \/ In k (map fst (image b))) ->
+  In kw (map fst (image b')) ->
+  (forall k, k <> kw -> (coef sx_eqb (image b') k - coef sx_eqb (image b) k <= coef sx_eqb (image b') kw - coef sx_eqb (image b) kw)%Q) ->
+  get_n_best Qle_bool (dconv image (pre ++ (b, w) :: post)) 1 = [Cand kw] ->
+  get_n_best Qle_bool (dconv image (pre ++ (b', w) :: post)) 1 = [Cand kw].
+Proof. intros B image. exact (PositionalShared_proofs.additive_sole_winner_diff sx_eqb sx_eqb_spec image). Qed.
+
+(* a ballot is ADDED: it names no new key and gives nobody more than the winner *)
+Theorem C17_additive_added : forall (B : Type) (image : B -> list (sx * Q)) pre post (b' : B) (w : Q) (kw : sx),
+  (0 <= w)%Q ->
+  (forall k, In k (map fst (image b')) -> In k (map fst (dconv image (pre ++ post)))) ->
+  (forall k, (coef sx_eqb (image b') k <= coef sx_eqb (image b') kw)%Q) ->
+  get_n_best Qle_bool (dconv image (pre ++ post)) 1 = [Cand kw] ->
+  get_n_best Qle_bool (dconv image (pre ++ (b', w) :: post)) 1 = [Cand kw].
+Proof. intros B image. exact (PositionalShared_proofs.additive_added_ballot sx_eqb sx_eqb_spec image). Qed.
+
+Lemma scorer_ok_is_b s : scorer_ok s = PositionalShared_proofs.scorer_ok_b s.
+Proof. reflexivity. Qed.
+
+(* the winner, on a rank of its own, moves up past the items p2 - plain or shared ranks - of a ballot that may contain shared ranks anywhere
+   (further occurrences of w elsewhere on the ballot do not matter); every scorer with [scorer_ok]; no condition on the ballot length (when
+   [rank_scores] refuses - Borda, more ranks than candidates - both images are empty) *)
+Theorem C17_positional_shared : forall (s : Convert.scorer) (n_cands : nat) pre_b post_b (p1 p2 p3 : ranked) (w : C) (wgt : Q),
+  (0 <= wgt)%Q -> ~ In w (flatten p2) -> scorer_ok s = true ->
+  get_n_best Qle_bool (dconv (pos_img s n_cands) (pre_b ++ (p1 ++ p2 ++ IP w :: p3, wgt) :: post_b)) 1 = [Cand (kc w)] ->
+  get_n_best Qle_bool (dconv (pos_img s n_cands) (pre_b ++ (p1 ++ IP w :: p2 ++ p3, wgt) :: post_b)) 1 = [Cand (kc w)].
+Proof.
+  intros s n_cands pre_b post_b p1 p2 p3 w wgt Hw Hnin Hok.
+  exact (PositionalShared_proofs.positional_move_up_items s n_cands pre_b post_b p1 p2 p3 w wgt Hw Hnin (C17_scorer_ok s n_cands Hok)).
+Qed.
+
+(* the winner LEAVES a shared rank {la, w, lb} for a place of its own above it (directly, or further up past the items p2): the ballot gets one
+   rank longer, so the score list is the one for k + 1 ranks.  For all six scorers under [scorer_ok] the two lists are related by [grow_ok]
+   (C17_scorer_grow_ok: a score shifted one place down never gains, one that stays never loses, and staying gains no more than any upward move).
+   No candidate twice on the ballot (C17_positional_twice_refuted).  When one member is left, it may be written as a plain rank. *)
+Theorem C17_scorer_grow_ok : forall s n k sc sc', scorer_ok s = true ->
+  rank_scores s n k = Some sc -> rank_scores s n (S k) = Some sc' -> PositionalShared_proofs.grow_ok sc sc'.
+Proof. intros s n k sc sc' Hok. rewrite scorer_ok_is_b in Hok. exact (PositionalShared_proofs.scorer_grow_ok s n k sc sc' Hok). Qed.
+
+Theorem C17_positional_leave_shared : forall (s : Convert.scorer) (n_cands : nat) pre_b post_b (p1 p2 p3 : ranked) (la lb : list C) (w : C) (wgt : Q) (sc' : list Q),
+  (0 <= wgt)%Q -> NoDup (flatten (p1 ++ p2 ++ IS (la ++ w :: lb) :: p3)) -> scorer_ok s = true ->
+  rank_scores s n_cands (S (length (p1 ++ p2 ++ IS (la ++ w :: lb) :: p3))) = Some sc' ->
+  get_n_best Qle_bool (dconv (pos_img s n_cands) (pre_b ++ (p1 ++ p2 ++ IS (la ++ w :: lb) :: p3, wgt) :: post_b)) 1 = [Cand (kc w)] ->
+  get_n_best Qle_bool (dconv (pos_img s n_cands) (pre_b ++ (p1 ++ IP w :: p2 ++ IS (la ++ lb) :: p3, wgt) :: post_b)) 1 = [Cand (kc w)].
+Proof.
+  intros s n_cands pre_b post_b p1 p2 p3 la lb w wgt sc' Hw Hnd Hok. rewrite scorer_ok_is_b in Hok.
+  exact (PositionalShared_proofs.positional_leave_shared s n_cands pre_b post_b p1 p2 p3 la lb w wgt sc' Hw Hnd Hok).
+Qed.
+
+Theorem C17_positional_leave_pair : forall (s : Convert.scorer) (n_cands : nat) pre_b post_b (p1 p2 p3 : ranked) (la lb : list C) (w c : C) (wgt : Q) (sc' : list Q),
+  (0 <= wgt)%Q -> NoDup (flatten (p1 ++ p2 ++ IS (la ++ w :: lb) :: p3)) -> scorer_ok s = true -> la ++ lb = [c] ->
+  rank_scores s n_cands (S (length (p1 ++ p2 ++ IS (la ++ w :: lb) :: p3))) = Some sc' ->
+  get_n_best Qle_bool (dconv (pos_img s n_cands) (pre_b ++ (p1 ++ p2 ++ IS (la ++ w :: lb) :: p3, wgt) :: post_b)) 1 = [Cand (kc w)] ->
+  get_n_best Qle_bool (dconv (pos_img s n_cands) (pre_b ++ (p1 ++ IP w :: p2 ++ IP c :: p3, wgt) :: post_b)) 1 = [Cand (kc w)].
+Proof.
+  intros s n_cands pre_b post_b p1 p2 p3 la lb w c wgt sc' Hw Hnd Hok. rewrite scorer_ok_is_b in Hok.
+  exact (PositionalShared_proofs.positional_leave_shared_single s n_cands pre_b post_b p1 p2 p3 la lb w c wgt sc' Hw Hnd Hok).
+Qed.
+
+(* an UNRANKED winner gets ranked (anywhere: p1 above it, p2 below it): an unranked candidate gets 0 from the ballot, so the new score of w must
+   not be negative - true of every scorer with [scorer_ok] except Borda with a negative base ([scorer_nonneg_b]); refuted otherwise
+   (C17_positional_negative_refuted) *)
+Theorem C17_positional_rank_unranked : forall (s : Convert.scorer) (n_cands : nat) pre_b post_b (p1 p2 : ranked) (w : C) (wgt : Q) (sc' : list Q),
+  (0 <= wgt)%Q -> ~ In w (flatten (p1 ++ p2)) -> NoDup (flatten (p1 ++ p2)) -> scorer_ok s = true ->
+  PositionalShared_proofs.scorer_nonneg_b s = true ->
+  rank_scores s n_cands (S (length (p1 ++ p2))) = Some sc' ->
+  get_n_best Qle_bool (dconv (pos_img s n_cands) (pre_b ++ (p1 ++ p2, wgt) :: post_b)) 1 = [Cand (kc w)] ->
+  get_n_best Qle_bool (dconv (pos_img s n_cands) (pre_b ++ (p1 ++ IP w :: p2, wgt) :: post_b)) 1 = [Cand (kc w)].
+Proof.
+  intros s n_cands pre_b post_b p1 p2 w wgt sc' Hw Hnin Hnd Hok. rewrite scorer_ok_is_b in Hok.
+  exact (PositionalShared_proofs.positional_rank_unranked_nonneg s n_cands pre_b post_b p1 p2 w wgt sc' Hw Hnin Hnd Hok).
+Qed.
+
+(* a NEW ballot with the winner alone on top (shared ranks and truncation below it allowed), naming no new candidate and nobody twice *)
+Theorem C17_positional_added : forall (s : Convert.scorer) (n_cands : nat) pre_b post_b (rest : ranked) (w : C) (wgt : Q),
+  (0 <= wgt)%Q -> NoDup (w :: flatten rest) ->
+  (forall c, In c (flatten rest) -> In (kc c) (map fst (dconv (pos_img s n_cands) (pre_b ++ post_b)))) ->
+  scorer_ok s = true -> PositionalShared_proofs.scorer_nonneg_b s = true ->
+  get_n_best Qle_bool (dconv (pos_img s n_cands) (pre_b ++ post_b)) 1 = [Cand (kc w)] ->
+  get_n_best Qle_bool (dconv (pos_img s n_cands) (pre_b ++ (IP w :: rest, wgt) :: post_b)) 1 = [Cand (kc w)].
+Proof.
+  intros s n_cands pre_b post_b rest w wgt Hw Hnd Hc Hok. rewrite scorer_ok_is_b in Hok.
+  exact (PositionalShared_proofs.positional_added_ballot_nonneg s n_cands pre_b post_b rest w wgt Hw Hnd Hc Hok).
+Qed.
+
+(* the two extra conditions are needed (all witnesses replayed on the implementation).  Borda(base = -5) has negative scores: {(A,B,C): 1, (B): 1}
+   elects A; ranking A FIRST on the second ballot, (B) -> (A,B), makes C win; {(A,B): 1} elects A, the added bullet vote (A) makes B win.
+   A candidate twice on the ballot: see the three profiles in [positional_twice_refuted]. *)
+Theorem C17_positional_negative_refuted :
+  (exists (s : Convert.scorer) (n_cands : nat) pre_b post_b (p1 p2 : ranked) (w : C) (wgt : Q) (sc' : list Q),
+    (0 <= wgt)%Q /\ ~ In w (flatten (p1 ++ p2)) /\ NoDup (flatten (p1 ++ p2)) /\ scorer_ok s = true /\
+    rank_scores s n_cands (S (length (p1 ++ p2))) = Some sc' /\ (nth (length p1) sc' 0 < 0)%Q /\
+    get_n_best Qle_bool (dconv (pos_img s n_cands) (pre_b ++ (p1 ++ p2, wgt) :: post_b)) 1 = [Cand (kc w)] /\
+    get_n_best Qle_bool (dconv (pos_img s n_cands) (pre_b ++ (p1 ++ IP w :: p2, wgt) :: post_b)) 1 = [Cand (kc 3%positive)] /\
+    w <> 3%positive) /\
+  (exists (s : Convert.scorer) (n_cands : nat) pre_b post_b (rest : ranked) (w : C) (wgt : Q),
+    (0 <= wgt)%Q /\ NoDup (w :: flatten rest) /\
+    (forall c, In c (flatten rest) -> In (kc c) (map fst (dconv (pos_img s n_cands) (pre_b ++ post_b)))) /\
+    scorer_ok s = true /\
+    get_n_best Qle_bool (dconv (pos_img s n_cands) (pre_b ++ post_b)) 1 = [Cand (kc w)] /\
+    get_n_best Qle_bool (dconv (pos_img s n_cands) (pre_b ++ (IP w :: rest, wgt) :: post_b)) 1 = [Cand (kc 2%positive)] /\
+    w <> 2%positive).
+Proof.
+  split; [exact PositionalShared_proofs.positional_rank_unranked_negative_refuted|exact PositionalShared_proofs.positional_added_ballot_negative_refuted].
+Qed.
+
+Definition C17_positional_twice_refuted := PositionalShared_proofs.positional_twice_refuted.
+Definition C17_positional_shared_examples := PositionalShared_proofs.positional_shared_examples.
+
+(* ==== Copeland / minimax: an UNRANKED winner gets ranked, and an ADDED ballot (Proofs/RaisesAdded_proofs.v), through the model of
+   RankedToCondorcetVotes(unranked_at_bottom=True).convert.
+   w is not on the ballot p1 ++ p2 (it counts as below everybody ranked there and level with the other unranked candidates) and gets ranked
+   between p1 and p2 - bottom, middle or top: the dictionary changes EXACTLY by [rank_gain]: count(w, c) += x for c in p2 and for the
+   candidates the new ballot still leaves unranked, count(c, w) -= x for c in p2, nothing else. *)
+Theorem C17_ballot_rank_exact : forall (pre post : Hybrids.rvotes) (p1 p2 : ranked) (x : Z) (w a c : C),
+  ~ In w (flatten (p1 ++ p2)) -> In w (Hybrids_proofs.cands_of (pre ++ (p1 ++ p2, x) :: post)) ->
+  pget0 (Hybrids.pairwise (pre ++ (p1 ++ IP w :: p2, x) :: post)) (a, c) =
+  pget0 (Hybrids.pairwise (pre ++ (p1 ++ p2, x) :: post)) (a, c)
+  + x * RaisesAdded_proofs.rank_gain (Hybrids_proofs.cands_of (pre ++ (p1 ++ p2, x) :: post)) p1 p2 w a c.
+Proof. intros pre post p1 p2 x w a c H1 H2. exact (RaisesAdded_proofs.pairwise_rank_exact pre post p1 p2 x w H1 H2 a c). Qed.
+
+Theorem C17_ballot_rank_raises : forall (pre post : Hybrids.rvotes) (p1 p2 : ranked) (x : Z) (w : C),
+  ~ In w (flatten (p1 ++ p2)) -> In w (Hybrids_proofs.cands_of (pre ++ (p1 ++ p2, x) :: post)) ->
+  Hybrids_proofs.wf_votes (pre ++ (p1 ++ p2, x) :: post) = true -> Hybrids.pairwise (pre ++ (p1 ++ p2, x) :: post) <> [] ->
+  raises_s (Hybrids.pairwise (pre ++ (p1 ++ p2, x) :: post)) (Hybrids.pairwise (pre ++ (p1 ++ IP w :: p2, x) :: post)) w.
+Proof. intros pre post p1 p2 x w. exact (RaisesAdded_proofs.pairwise_rank_raises pre post p1 p2 x w). Qed.
+
+Theorem C17_copeland_ballots_rank : forall (pre post : Hybrids.rvotes) (p1 p2 : ranked) (x : Z) (w : C) (so : bool),
+  Hybrids_proofs.wf_votes (pre ++ (p1 ++ p2, x) :: post) = true -> ~ In w (flatten (p1 ++ p2)) ->
+  copeland false (Hybrids.pairwise (pre ++ (p1 ++ p2, x) :: post)) 1 = [Cand w] ->
+  copeland so (Hybrids.pairwise (pre ++ (p1 ++ IP w :: p2, x) :: post)) 1 = [Cand w].
+Proof. exact RaisesAdded_proofs.copeland_ballot_rank. Qed.
+
+Theorem C17_minimax_ballots_rank : forall (pre post : Hybrids.rvotes) (p1 p2 : ranked) (x : Z) (w : C) (s : Condorcet.scorer),
+  Hybrids_proofs.wf_votes (pre ++ (p1 ++ p2, x) :: post) = true -> ~ In w (flatten (p1 ++ p2)) ->
+  minimax s (Hybrids.pairwise (pre ++ (p1 ++ p2, x) :: post)) 1 = [Cand w] ->
+  minimax s (Hybrids.pairwise (pre ++ (p1 ++ IP w :: p2, x) :: post)) 1 = [Cand w].
+Proof. exact RaisesAdded_proofs.minimax_ballot_rank. Qed.
+
+(* an ADDED ballot r (x units, no new candidate): every entry grows by x times the coefficient of r; the bullet vote for w: count(w, c) += x for
+   every other candidate of the profile, nothing else - so Copeland and minimax (all three scorers) keep the sole winner *)
+Theorem C17_ballot_added_exact : forall (pre post : Hybrids.rvotes) (r : ranked) (x : Z) (a c : C),
+  (forall k, In k (flatten r) -> In k (Hybrids_proofs.cands_of (pre ++ post))) ->
+  pget0 (Hybrids.pairwise (pre ++ (r, x) :: post)) (a, c) =
+  pget0 (Hybrids.pairwise (pre ++ post)) (a, c) + x * Hybrids_proofs.coef (Hybrids_proofs.cands_of (pre ++ post)) r a c.
+Proof. intros pre post r x a c H. exact (RaisesAdded_proofs.pairwise_added_exact pre post r x H a c). Qed.
+
+Theorem C17_ballot_bullet_exact : forall (pre post : Hybrids.rvotes) (x : Z) (w a c : C),
+  In w (Hybrids_proofs.cands_of (pre ++ post)) ->
+  pget0 (Hybrids.pairwise (pre ++ ([IP w], x) :: post)) (a, c) =
+  pget0 (Hybrids.pairwise (pre ++ post)) (a, c)
+  + x * (Hybrids_proofs.cnt a [w] * Hybrids_proofs.cnt c (set_diff (Hybrids_proofs.cands_of (pre ++ post)) [w])).
+Proof. intros pre post x w a c H. exact (RaisesAdded_proofs.pairwise_bullet_exact pre post x w H a c). Qed.
+
+Theorem C17_copeland_ballots_added_bullet : forall (pre post : Hybrids.rvotes) (x : Z) (w : C) (so : bool),
+  Hybrids_proofs.wf_votes (pre ++ post) = true -> 0 <= x ->
+  copeland false (Hybrids.pairwise (pre ++ post)) 1 = [Cand w] ->
+  copeland so (Hybrids.pairwise (pre ++ ([IP w], x) :: post)) 1 = [Cand w].
+Proof. exact RaisesAdded_proofs.copeland_ballot_added_bullet. Qed.
+
+Theorem C17_minimax_ballots_added_bullet : forall (pre post : Hybrids.rvotes) (x : Z) (w : C) (s : Condorcet.scorer),
+  Hybrids_proofs.wf_votes (pre ++ post) = true -> 0 <= x ->
+  minimax s (Hybrids.pairwise (pre ++ post)) 1 = [Cand w] ->
+  minimax s (Hybrids.pairwise (pre ++ ([IP w], x) :: post)) 1 = [Cand w].
+Proof. exact RaisesAdded_proofs.minimax_ballot_added_bullet. Qed.
+
+(* a LONGER added ballot (w alone on top, then any items) changes contests among the others, so [raises_s] fails; what holds is [lifts_by .. w x]:
+   w gains at least x against everybody, nobody gains against w, any other count grows by at most x.  Minimax with margins and with pairwise
+   opposition keeps the sole winner under it (every defeat of w shrinks by at least as much as anybody else's can) ... *)
+Theorem C17_ballot_added_lifts : forall (pre post : Hybrids.rvotes) (rest : ranked) (x : Z) (w : C),
+  In w (Hybrids_proofs.cands_of (pre ++ post)) -> (forall c, In c (flatten rest) -> In c (Hybrids_proofs.cands_of (pre ++ post))) ->
+  Hybrids_proofs.wf_votes (pre ++ (IP w :: rest, x) :: post) = true -> Hybrids.pairwise (pre ++ post) <> [] ->
+  RaisesAdded_proofs.lifts_by (Hybrids.pairwise (pre ++ post)) (Hybrids.pairwise (pre ++ (IP w :: rest, x) :: post)) w x.
+Proof. exact RaisesAdded_proofs.pairwise_added_lifts. Qed.
+
+Theorem C17_minimax_ballots_added : forall (pre post : Hybrids.rvotes) (rest : ranked) (x : Z) (w : C) (s : Condorcet.scorer),
+  s <> WinningVotes ->
+  Hybrids_proofs.wf_votes (pre ++ (IP w :: rest, x) :: post) = true ->
+  (forall c, In c (flatten rest) -> In c (Hybrids_proofs.cands_of (pre ++ post))) ->
+  minimax s (Hybrids.pairwise (pre ++ post)) 1 = [Cand w] ->
+  minimax s (Hybrids.pairwise (pre ++ (IP w :: rest, x) :: post)) 1 = [Cand w].
+Proof. exact RaisesAdded_proofs.minimax_ballot_added. Qed.
+
+(* ... Copeland and minimax with winning votes do NOT (found on the implementation, minimised, kernel-evaluated on the model).
+   Copeland: {(A,D,C): 2, (C,B): 2, (B,D): 2} elects B; one more ballot (B,C) turns the tie C - A into a win of C: first-order tie {C, B}, and
+   the default second-order tie-break elects C alone.  Minimax, winning votes: {(B): 2, (D): 4, (A,B): 3} elects B; one more ballot (B,A) makes
+   D - A and A - B ties, A and B are both undefeated: tie {A, B}. *)
+Theorem C17_copeland_added_long_refuted : exists pre post rest x w,
+  Hybrids_proofs.wf_votes (pre ++ (IP w :: rest, x) :: post) = true /\ 0 < x /\
+  (forall c, In c (flatten rest) -> In c (Hybrids_proofs.cands_of (pre ++ post))) /\
+  copeland false (Hybrids.pairwise (pre ++ post)) 1 = [Cand w] /\ copeland true (Hybrids.pairwise (pre ++ post)) 1 = [Cand w] /\
+  copeland false (Hybrids.pairwise (pre ++ (IP w :: rest, x) :: post)) 1 = [TieR [3; 2]%positive] /\
+  copeland true (Hybrids.pairwise (pre ++ (IP w :: rest, x) :: post)) 1 = [Cand 3%positive] /\ w <> 3%positive.
+Proof. exact RaisesAdded_proofs.copeland_added_long_refuted. Qed.
+
+Theorem C17_minimax_winvotes_added_long_refuted : exists pre post rest x w,
+  Hybrids_proofs.wf_votes (pre ++ (IP w :: rest, x) :: post) = true /\ 0 < x /\
+  (forall c, In c (flatten rest) -> In c (Hybrids_proofs.cands_of (pre ++ post))) /\
+  minimax WinningVotes (Hybrids.pairwise (pre ++ post)) 1 = [Cand w] /\
+  minimax WinningVotes (Hybrids.pairwise (pre ++ (IP w :: rest, x) :: post)) 1 = [TieR [1; 2]%positive].
+Proof. exact RaisesAdded_proofs.minimax_winvotes_added_long_refuted. Qed.
+
+Definition C17_ballot_rank_example := RaisesAdded_proofs.rank_example.
+Definition C17_ballot_added_example := RaisesAdded_proofs.added_example.
+
 Print Assumptions C17_house.
 Print Assumptions C17_house_any.
 Print Assumptions C17_votes.
@@ -798,3 +1011,25 @@ Print Assumptions C17_votes_full.
 Print Assumptions C17_builtin_divisors_ok.
 Print Assumptions C17_lr_house_refuted.
 Print Assumptions C17_lr_votes_droop_refuted.
+Print Assumptions C17_additive_diff.
+Print Assumptions C17_additive_added.
+Print Assumptions C17_positional_shared.
+Print Assumptions C17_scorer_grow_ok.
+Print Assumptions C17_positional_leave_shared.
+Print Assumptions C17_positional_leave_pair.
+Print Assumptions C17_positional_rank_unranked.
+Print Assumptions C17_positional_added.
+Print Assumptions C17_positional_negative_refuted.
+Print Assumptions C17_positional_twice_refuted.
+Print Assumptions C17_ballot_rank_exact.
+Print Assumptions C17_ballot_rank_raises.
+Print Assumptions C17_copeland_ballots_rank.
+Print Assumptions C17_minimax_ballots_rank.
+Print Assumptions C17_ballot_added_exact.
+Print Assumptions C17_ballot_bullet_exact.
+Print Assumptions C17_copeland_ballots_added_bullet.
+Print Assumptions C17_minimax_ballots_added_bullet.
+Print Assumptions C17_ballot_added_lifts.
+Print Assumptions C17_minimax_ballots_added.
+Print Assumptions C17_copeland_added_long_refuted.
+Print Assumptions C17_minimax_winvotes_added_long_refuted.
